@@ -820,6 +820,8 @@ func run(c *core.Ctx) {
 				}
 				var n, minted, refused, probed int64
 				stop := false
+				var firstMinted *reqCase
+				var firstOut outcome
 				for _, ty := range types {
 					for _, ttl := range ttls {
 						for _, ch := range channels {
@@ -834,6 +836,10 @@ func run(c *core.Ctx) {
 							}
 							out, vs := w.request(rc, sample)
 							n++
+							if out.Minted && firstMinted == nil && len(vs) == 0 {
+								cp := rc
+								firstMinted, firstOut = &cp, out
+							}
 							if out.Minted {
 								minted++
 								c.Distinct("nontrivial", rc.String())
@@ -860,6 +866,19 @@ func run(c *core.Ctx) {
 					if c.Expired() {
 						stop = true
 						capOnce.Do(func() { c.NotExhaustive("soft deadline reached inside the enumeration of a parent key") })
+					}
+				}
+				// the first request this parent key was granted is sent once more after everything else that was done
+				// with the key: the key, the connection and the request are the same, so the answer must be the same
+				// (a key is not used up or altered by having been used)
+				if firstMinted != nil && !stop && w != nil {
+					out, vs := w.request(*firstMinted, false)
+					n++
+					for _, v := range vs {
+						c.Violate(v.sig, v.what, *firstMinted)
+					}
+					if !out.Minted || out.Perms != firstOut.Perms {
+						c.Violate(p.Kind+":verdict-changed-after-use", fmt.Sprintf("%s: granted at first (permissions %s), and after the key had been used for the other requests of the enumeration: minted=%v status=%d permissions=%s", firstMinted, firstOut.Perms, out.Minted, out.Status, out.Perms), *firstMinted)
 					}
 				}
 				c.Add("evaluations", n)
